@@ -168,6 +168,8 @@ def model(h: list) -> list:
             if state == 'other':
                 adm.add('reject')
         out.append((op, state, adm))
+    model.maybe_err = maybe_err or sure_err     # type: ignore[attr-defined]
+    model.alive = alive                         # type: ignore[attr-defined]
     return out
 
 
@@ -181,7 +183,10 @@ def classify(op: list, ev: list) -> str:
         return 'boom'
     if 'Connection unexpectedly none' in msg:
         return 'dead'
-    if 'Unknown task' in msg:
+    if 'Unknown task' in msg or 'cause: EOFError' in msg:
+        # the server answers ERROR 'Unknown task.' and drops the connection;
+        # the ERROR may be overtaken by the close, which the client sees as
+        # end-of-file: either way an error to this client only
         return 'reject'
     return 'error:' + tb_signature(msg)
 
@@ -220,9 +225,13 @@ def judge_c13a(spec: dict, rec: dict, fault) -> list:
     srv_alive = 'srv.main' in rec['alive']
     if not srv_alive:
         op, state, got = first_bad or (('?', '?'), '?', '?')
+        for i, (o2, s2, adm) in enumerate(m):
+            if i < len(hev) and classify(o2, hev[i]).startswith('error'):
+                op, state = o2, s2
+                break
         tbs = [tb for n, tb in rec['thread_errors'] if n.startswith('srv')]
         errs = [t for _, t in rec['errors_sent'] if 'boom-' not in t]
-        why = tb_signature((tbs + errs + [''])[0])
+        why = tb_signature((errs + tbs + [''])[0])
         v.append((
             f'server-down:{op[0]}:{state}:{why}',
             f'history {spec["name"]}: the server is no longer running after '
@@ -230,7 +239,14 @@ def judge_c13a(spec: dict, rec: dict, fault) -> list:
         ))
     elif c0_alive and first_bad is None:
         probe = evs[3 + len(h):]
-        if len(probe) < 2 or probe[1][2] != 'ok' or probe[1][3] != 'UNKNOWN':
+        pending_boom = (
+            model.maybe_err and len(probe) == 2          # type: ignore
+            and probe[1][2] == 'exc' and 'boom-' in probe[1][4]
+        )
+        if pending_boom:
+            pass    # the raising task's own error, delivered on this call
+        elif len(probe) < 2 or probe[1][2] != 'ok' \
+                or probe[1][3] != 'UNKNOWN':
             v.append(('server-probe-failed',
                       f'history {spec["name"]}: probe status(unknown) gave '
                       f'{probe}'))
